@@ -142,7 +142,7 @@ def boundary(case, ref_out, ref_state_, T):
 def has_fault(script, init=None):
     for toks in script.values():
         for _, tok in toks:
-            if tok == 'warn' or (isinstance(tok, list) and (tok[0] == 'raise' or (tok[0] == 'set' and isinstance(tok[1], str)))):
+            if tok == 'warn' or (isinstance(tok, list) and (tok[0] in ('raise', 'warn') or (tok[0] == 'set' and isinstance(tok[1], str)))):
                 return True
     return False
 
